@@ -317,7 +317,7 @@ func c01R3(c *Ctx) {
 			}
 		})
 	}
-	c.minCount(rule+"a", "handler call sites", nHandler, 20)
+	c.minCount(rule+"a", "handler call sites", nHandler, 8)
 	// (b) lock order graph over all repo functions in scope
 	type edge struct{ from, to *types.Var }
 	edges := map[edge]string{}
